@@ -102,7 +102,25 @@ class Ctx:
 
     def run_driver(self, binary, test, outdir, extra=None, timeout=1800, race_reports=None, crash_reports=None):
         """Runs one driver test function of the harness binary; a failing or dead driver
-        is an infrastructure error (the driver itself never judges)."""
+        is an infrastructure error (the driver itself never judges).  A driver that died for a reason of its own (no panic
+        in the code under test, no time-out) says nothing about the property: its output is kept for diagnosis and it is
+        run once more; the second run stands."""
+        try:
+            return self._run_driver(binary, test, outdir, extra, timeout, race_reports, crash_reports)
+        except Infra as e:
+            if "timed out" in str(e).split("\n")[0]:
+                raise
+            os.makedirs(os.path.join(VERIF, "replays"), exist_ok=True)
+            keep = os.path.join(VERIF, "replays", "driver-failure-%s-%s-%d.txt" % (self.pid, test, int(time.time())))
+            with open(keep, "w") as f:
+                f.write(str(e))
+            self.log("driver %s failed once (output kept in %s); running it once more" % (test, keep))
+            self.coverage.setdefault("driver_reruns", []).append(test)
+            shutil.rmtree(outdir, True)
+            os.makedirs(outdir, exist_ok=True)
+            return self._run_driver(binary, test, outdir, extra, timeout, race_reports, crash_reports)
+
+    def _run_driver(self, binary, test, outdir, extra, timeout, race_reports, crash_reports):
         env = self.env({"VERIF_OUT": outdir, "GORACE": "halt_on_error=0"})
         if extra:
             env.update({k: str(v) for k, v in extra.items()})
